@@ -588,7 +588,7 @@ func (b *brokerCore) handle(ws []string) string {
 				c.mu.Unlock()
 			}
 		}
-		c.write(bytes)
+		writeFirst(c, bytes)
 		c.waitUntil(func() bool { return len(c.items) > 0 || c.eof }, brokerWait)
 		if pipelinedDisconnect {
 			c.waitUntil(func() bool { return c.eof }, 2*time.Second)
@@ -951,7 +951,7 @@ func (b *brokerCore) rawFirstGroups(id int, data []byte, closes bool) map[int][]
 		ok := c.waitUntil(func() bool { return c.eof }, brokerWait)
 		return refused(c.take(), ok)
 	}
-	c.write(data[:n])
+	writeFirst(c, data[:n])
 	c.waitUntil(func() bool { return len(c.items) > 0 || c.eof }, brokerWait)
 	c.mu.Lock()
 	if len(c.items) > 0 && strings.HasPrefix(c.items[0], "CONNACK") && strings.HasSuffix(c.items[0], " 0") {
@@ -974,6 +974,28 @@ func (b *brokerCore) rawFirstGroups(id int, data []byte, closes bool) map[int][]
 		b.collectInto(groups, id)
 	}
 	return groups
+}
+
+// writeFirst writes the first packet(s) of a connection; one input in eight (chosen by its content, so
+// the same op line always behaves the same) goes out in two writes, split inside the body of the first
+// packet.  On the in-memory pipe a read never spans two writes, so the broker's reader of the first
+// packet gets a short read there - as it may on any TCP connection - and has to go on reading.
+func writeFirst(c *rawClient, data []byte) error {
+	sum := 0
+	for _, x := range data {
+		sum += int(x)
+	}
+	if len(data) > 8 && sum%8 == 0 {
+		k := 4 + sum%(len(data)-6)
+		if k > len(data)-1 {
+			k = len(data) - 1
+		}
+		if err := c.write(data[:k]); err != nil {
+			return err
+		}
+		return c.write(data[k:])
+	}
+	return c.write(data)
 }
 
 // firstFrameLen: length of the first complete frame of data (which scanFrames found to exist).
